@@ -10,7 +10,7 @@
 (* every line is examined; because each line carries its own pre-state a   *)
 (* mismatch does not mask later ones).                                     *)
 (***************************************************************************)
-EXTENDS Database
+EXTENDS Database, Oplog
 
 Trace == ndJsonDeserialize("trace.ndjson")
 N == Len(Trace)
@@ -103,5 +103,14 @@ CheckCall(e, line) ==
      /\ (TsIncreasing(e.ts) \/ Bad(line, "event-ids:" \o e.op, e.ts, ""))
      /\ ((e.a # <<>> /\ "gen" \in DOMAIN e.a /\ e.a.gen # Missing) => (e.a.gen.t = "oid" \/ Bad(line, "generated-id:" \o e.op, "oid", e.a.gen)))
 
-Checked == l # 0 => (Trace[l].fn = "call" => CheckCall(Trace[l], l))
+(* one call of the real Transaction.Clean on a crafted change log *)
+CheckClean(e, line) ==
+  LET ref == CleanRef(e.len, e.ages, e.minSize, e.maxSize, e.minAge, e.maxAge) IN
+  /\ (e.prefix \/ Bad(line, "retention:not-a-prefix", "oldest events only", e.dropped))
+  /\ (EnvelopeOK(e.dropped, e.len, e.ages, e.minSize, e.maxSize, e.minAge, e.maxAge) \/ Bad(line, "retention:envelope", ref, e.dropped))
+  /\ (e.dropped = ref \/ Bad(line, "retention:count", ref, e.dropped))
+
+Checked == l # 0 => CASE Trace[l].fn = "call" -> CheckCall(Trace[l], l)
+                      [] Trace[l].fn = "clean" -> CheckClean(Trace[l], l)
+                      [] OTHER -> TRUE
 =============================================================================
